@@ -38,7 +38,31 @@ def gen_batch(draw):
                   "attrs": [["Cryptographic Usage Mask", 12]]})       # fails at commit time
     n = draw(st.sampled_from([1, 2, 2, 3, 3, 4, 5, 6]))
     items = []
-    if draw(st.integers(0, 5)) == 0:
+    if draw(st.integers(0, 9)) == 0 and tuple(v) < (2, 0):
+        # an object with several instances of the multi-valued attributes, then identifier-less
+        # attribute operations on it - among them the ones that make two instances equal
+        multi = [["Name", "m-one", 0], ["Name", "m-two", 1], ["Object Group", "gA", 0], ["Object Group", "gB", 1],
+                 ["Application Specific Information", {"ns": "n", "data": "1"}, 0],
+                 ["Application Specific Information", {"ns": "n", "data": "2"}, 1]]
+        items.append(F.register_item("SymmetricKey", label="c08m", extra_attrs=multi))
+        for _ in range(draw(st.integers(1, 3))):
+            attr, a0, a1 = draw(st.sampled_from([("Name", "m-one", "m-two"), ("Object Group", "gA", "gB"),
+                                                 ("Application Specific Information", {"ns": "n", "data": "1"},
+                                                  {"ns": "n", "data": "2"})]))
+            how = draw(st.sampled_from(["dup-1", "dup-0", "fresh-1", "del-0", "del-1", "bad-index"]))
+            if how == "dup-1":
+                items.append({"op": "ModifyAttribute", "attr": [attr, a0, 1]})
+            elif how == "dup-0":
+                items.append({"op": "ModifyAttribute", "attr": [attr, a1, 0]})
+            elif how == "fresh-1":
+                items.append({"op": "ModifyAttribute", "attr": [attr, a0 if attr.startswith("App") else "fresh", 1]})
+            elif how.startswith("del"):
+                items.append({"op": "DeleteAttribute", "name": attr, "index": int(how[-1])})
+            else:
+                items.append({"op": "ModifyAttribute", "attr": [attr, a0, 7]})
+        items.append({"op": "GetAttributes"})
+        n = 0
+    elif draw(st.integers(0, 5)) == 0:
         # a creating item, then items that name other objects (reads, Locates, state changes),
         # then an identifier-less item: the placeholder still denotes the created object
         creators = [i for l, i in pool if l.startswith("ok/") and i["op"] in CREATORS]
